@@ -26,37 +26,100 @@ Proof.
   rewrite (j_or_arr _ (wf_list_shape _ Hi)), (j_or_arr _ (wf_list_shape _ Hh)). reflexivity.
 Qed.
 
+(** the declarative shape of flows/message is exactly when building them does not raise *)
+Lemma mapM_some_iff {A B} (f : A -> option B) l : is_some (mapM f l) = forallb (fun x => is_some (f x)) l.
+Proof.
+  induction l as [|x l IH]; simpl; [reflexivity|].
+  destruct (f x); simpl; [|reflexivity]. rewrite <- IH. destruct (mapM f l); reflexivity.
+Qed.
+
+Lemma forallb_ext {A} (P Q : A -> bool) l : (forall x, P x = Q x) -> forallb P l = forallb Q l.
+Proof. intros H. induction l as [|x l IH]; simpl; [reflexivity|]. now rewrite H, IH. Qed.
+
+Lemma flow_location_exact l : is_some (flow_location l) = wf_flow_loc l.
+Proof.
+  unfold wf_flow_loc, flow_location, jget_or_null. destruct l; try reflexivity.
+  destruct (jget s_textRange (JObj l)) as [[| | | | |t]|]; try reflexivity.
+  destruct (jget s_component (JObj l)) as [[| | |c| |]|]; reflexivity.
+Qed.
+
+Lemma iter_exact {B} (P : json -> bool) (f : json -> option B) j :
+  (forall x, is_some (f x) = P x) -> (forall s, P (JStr s) = false) ->
+  is_some (match py_iter j with Some its => mapM f its | None => None end) = list_of P j.
+Proof.
+  intros H HS. unfold list_of, py_iter. destruct j as [| | |[|c cs]|l|[|kv kvs]]; try reflexivity.
+  - cbn [map]. rewrite mapM_some_iff. cbn [forallb]. now rewrite H, HS.
+  - rewrite mapM_some_iff. apply forallb_ext. exact H.
+  - cbn [map]. rewrite mapM_some_iff. cbn [forallb]. now rewrite H, HS.
+Qed.
+
+Lemma flow_locations_exact f : is_some (flow_locations f) = wf_flow f.
+Proof.
+  unfold wf_flow, flow_locations. destruct f; try reflexivity.
+  destruct (jget s_locations (JObj l)) as [ls|]; [|reflexivity].
+  apply iter_exact; [exact flow_location_exact | reflexivity].
+Qed.
+
+Lemma all_flows_exact e : is_some (all_flows e) = wf_flows e.
+Proof.
+  unfold wf_flows, all_flows. destruct (jget s_flows e) as [fl|]; [|reflexivity].
+  apply iter_exact; [exact flow_locations_exact | reflexivity].
+Qed.
+
+Lemma message_ok_exact e : message_ok e = wf_message e.
+Proof.
+  unfold wf_message, message_ok.
+  destruct (jget s_message e) as [[|[|]|z|[|c m]|[|x l]|[|kv l]]|]; try reflexivity.
+  simpl. destruct (Z.eqb z 0); reflexivity.
+Qed.
+
 Definition entry_spec (e : json) : list finding := if is_open e then sonar_finding_of e else [].
 
-Lemma sonar_entry_wf e : wf_entry e = true -> sonar_entry e = Some (entry_spec e).
+Ltac crunch :=
+  repeat (unfold j_or; cbn [jtruthy negb jstr andb];
+          match goal with
+          | |- context [Z.eqb ?z 0] => destruct (Z.eqb z 0)
+          | |- context [rule_has_colon ?r] => destruct (rule_has_colon r)
+          end);
+  unfold j_or; cbn [jtruthy negb jstr andb]; try reflexivity.
+
+(** SonarResult.from_result raises exactly on the entries whose parts are not as [open_parts_ok] says *)
+Lemma from_result_exact l :
+  sonar_from_result (JObj l) = if open_parts_ok (JObj l) then Some (sonar_finding_of (JObj l)) else None.
 Proof.
-  unfold wf_entry, sonar_entry, entry_spec, status_open, is_open.
-  destruct e as [| | | | |l]; try discriminate.
-  destruct (jget s_status (JObj l)) as [[| | |s| |]|] eqn:Es; try discriminate.
-  intros H. apply andb_prop in H. destruct H as [Hr Ht].
-  destruct (str_eqb (lower_ascii s) s_open || str_eqb (lower_ascii s) s_to_review); [|reflexivity].
-  unfold sonar_from_result, sonar_finding_of, jget_or_null.
-  (* the rule *)
-  assert (Hrule : exists r, j_or (match jget s_rule (JObj l) with Some v => v | None => JNull end)
-                                 (match jget s_ruleKey (JObj l) with Some v => v | None => JNull end) = JStr r
-                            /\ r <> [] /\ rule_has_colon r = true
-                            /\ sonar_rule (JObj l) = r).
-  { unfold sonar_rule. destruct (jget s_rule (JObj l)) as [[| | |[|c r]| |]|]; try discriminate.
-    - destruct (jget s_ruleKey (JObj l)) as [[| | |[|c r]| |]|]; try discriminate.
-      exists (c :: r). repeat split; auto; discriminate.
-    - destruct (jget s_ruleKey (JObj l)) as [[| | |[|c r]| |]|]; try discriminate.
-      exists (c :: r). repeat split; auto; discriminate.
-    - exists (c :: r). repeat split; auto; discriminate.
-    - destruct (jget s_ruleKey (JObj l)) as [[| | |[|c r]| |]|]; try discriminate.
-      exists (c :: r). repeat split; auto; discriminate. }
-  destruct Hrule as [r [Hor [Hne [Hcol Hsr]]]].
-  rewrite Hor, Hsr. destruct r as [|c r]; [congruence|]. cbn [jtruthy negb jstr].
-  rewrite Hcol. cbn [negb].
-  destruct (jget s_textRange (JObj l)) as [[| | | | |tl]|]; try discriminate; try reflexivity.
-  destruct tl as [|[k v] t]; [reflexivity|].
-  destruct (jget s_component (JObj l)) as [[| | |comp| |]|]; try discriminate.
-  reflexivity.
+  unfold sonar_from_result, open_parts_ok.
+  replace (match all_flows (JObj l) with Some _ => true | None => false end) with (is_some (all_flows (JObj l))) by reflexivity.
+  rewrite all_flows_exact, message_ok_exact.
+  destruct (wf_flows (JObj l)); [|rewrite !andb_false_r; reflexivity].
+  destruct (wf_message (JObj l)); [|rewrite !andb_false_r; reflexivity].
+  rewrite !andb_true_r. cbn [andb negb].
+  unfold rule_ok, tr_ok, sonar_finding_of, sonar_rule, jget_or_null.
+  destruct (jget s_rule (JObj l)) as [[|[|]|z|[|c r]|[|x a]|[|kv o]]|];
+  destruct (jget s_ruleKey (JObj l)) as [[|[|]|z'|[|c' r']|[|x' a']|[|kv' o']]|];
+  crunch;
+  destruct (jget s_textRange (JObj l)) as [[|[|]|z''|[|c'' r'']|[|x'' a'']|[|[k v] t]]|];
+  crunch;
+  destruct (jget s_component (JObj l)) as [[| | |comp| |]|]; reflexivity.
 Qed.
+
+Lemma sonar_entry_exact e : sonar_entry e = if readable_entry e then Some (entry_spec e) else None.
+Proof.
+  unfold sonar_entry, readable_entry, entry_spec, status_open, is_open.
+  destruct e as [| | | | |l]; try reflexivity.
+  destruct (jget s_status (JObj l)) as [[| | |s| |]|]; try reflexivity.
+  destruct (str_eqb (lower_ascii s) s_open || str_eqb (lower_ascii s) s_to_review); [|reflexivity].
+  apply from_result_exact.
+Qed.
+
+Lemma wf_readable e : wf_entry e = true -> readable_entry e = true.
+Proof.
+  unfold wf_entry, readable_entry. destruct e; try discriminate.
+  destruct (jget s_status (JObj l)) as [[| | |s| |]|]; try discriminate.
+  intros H. rewrite H. destruct (is_open (JObj l)); reflexivity.
+Qed.
+
+Lemma sonar_entry_wf e : wf_entry e = true -> sonar_entry e = Some (entry_spec e).
+Proof. intros H. rewrite sonar_entry_exact, (wf_readable _ H). reflexivity. Qed.
 
 Theorem sonar_reader_spec doc : wf_sonar doc = true -> sonar_reader IssuesPlusHotspots doc = sonar_spec doc.
 Proof.
@@ -80,3 +143,69 @@ Proof. split; [vm_compute; reflexivity | vm_compute; discriminate]. Qed.
 
 Lemma sonar_spec_example : length (sonar_spec w_doc) = 2.
 Proof. vm_compute. reflexivity. Qed.
+
+(** Per-entry isolation: on ANY document whose container has the right shape, the reader files exactly every open
+    issue and hotspot that is individually readable; malformed entries cost only themselves. *)
+Lemma wf_seq_or j : wf_seq j = true -> j_or j (JArr []) = JArr (arr_or_empty j).
+Proof.
+  unfold wf_seq, j_or. destruct j as [|[|]|z|[|c s]|[|x l]|[|kv l]]; simpl; try discriminate; try reflexivity.
+  destruct (Z.eqb z 0); simpl; [reflexivity|discriminate].
+Qed.
+
+Lemma sonar_entries_container doc : wf_container doc = true ->
+  sonar_entries IssuesPlusHotspotsPerEntry doc =
+  Some (arr_or_empty (jget_or_null s_issues doc) ++ arr_or_empty (jget_or_null s_hotspots doc)) /\
+  sonar_entries IssuesPlusHotspots doc =
+  Some (arr_or_empty (jget_or_null s_issues doc) ++ arr_or_empty (jget_or_null s_hotspots doc)).
+Proof.
+  unfold wf_container, sonar_entries. destruct doc; try discriminate. intros H.
+  apply andb_prop in H. destruct H as [Hi Hh].
+  rewrite (wf_seq_or _ Hi), (wf_seq_or _ Hh). split; reflexivity.
+Qed.
+
+Theorem sonar_reader_robust doc :
+  wf_container doc = true -> sonar_reader IssuesPlusHotspotsPerEntry doc = sonar_spec_robust doc.
+Proof.
+  intros H. unfold sonar_reader, sonar_spec_robust. rewrite (proj1 (sonar_entries_container _ H)).
+  induction (arr_or_empty (jget_or_null s_issues doc) ++ arr_or_empty (jget_or_null s_hotspots doc)) as [|e es IH];
+    [reflexivity|].
+  cbn [flat_map]. rewrite IH, sonar_entry_exact. unfold entry_spec.
+  destruct (readable_entry e); [|reflexivity]. destruct (is_open e); reflexivity.
+Qed.
+
+Lemma wf_sonar_container doc : wf_sonar doc = true -> wf_container doc = true.
+Proof.
+  unfold wf_sonar, wf_container. destruct doc; try discriminate. intros H.
+  apply andb_prop in H. destruct H as [Hi Hh].
+  assert (W : forall j, wf_list j = true -> wf_seq j = true) by (intros j; destruct j; simpl; try discriminate; reflexivity).
+  now rewrite (W _ Hi), (W _ Hh).
+Qed.
+
+Lemma sonar_spec_robust_wf doc : wf_sonar doc = true -> sonar_spec_robust doc = sonar_spec doc.
+Proof.
+  intros H. unfold sonar_spec_robust, sonar_spec.
+  assert (Hall : forallb wf_entry (arr_or_empty (jget_or_null s_issues doc) ++ arr_or_empty (jget_or_null s_hotspots doc)) = true).
+  { unfold wf_sonar in H. destruct doc; try discriminate. apply andb_prop in H. destruct H as [Hi Hh].
+    rewrite forallb_app, (wf_list_forall _ Hi), (wf_list_forall _ Hh). reflexivity. }
+  induction (arr_or_empty (jget_or_null s_issues doc) ++ arr_or_empty (jget_or_null s_hotspots doc)) as [|e es IH];
+    [reflexivity|].
+  cbn [forallb] in Hall. apply andb_prop in Hall. destruct Hall as [He Hes].
+  cbn [flat_map]. rewrite (IH Hes), (wf_readable _ He). reflexivity.
+Qed.
+
+Theorem sonar_reader_spec_per_entry doc :
+  wf_sonar doc = true -> sonar_reader IssuesPlusHotspotsPerEntry doc = sonar_spec doc.
+Proof. intros H. rewrite (sonar_reader_robust _ (wf_sonar_container _ H)). now apply sonar_spec_robust_wf. Qed.
+
+(** the per-file form loses a well-formed open issue when ANOTHER entry of the file is malformed
+    (here: a code-flow location without textRange) *)
+Definition w_issue_badflow : json :=
+  JObj [(s_rule, JStr [112;58;83;50]%N); (s_status, JStr [79;80;69;78]%N); (s_key, JStr [67]%N);
+        (s_component, JStr [112;58;98]%N);
+        (s_flows, JArr [JObj [(s_locations, JArr [JObj [(s_component, JStr [112;58;98]%N)]])]])].
+Definition w_doc_mal : json := JObj [(s_issues, JArr [w_issue 65; w_issue_badflow])].
+
+Lemma sonar_perfile_refuted :
+  wf_container w_doc_mal = true /\ length (sonar_spec_robust w_doc_mal) = 1 /\
+  sonar_reader IssuesPlusHotspots w_doc_mal = [].
+Proof. repeat split; vm_compute; reflexivity. Qed.
